@@ -752,6 +752,8 @@ def matrix_ops(R, rng, sr, m, v, dt):
                 for kk, blk in xc.blocks.items():
                     rows = [s2 for s2 in mw.blocks if s2[1] == kk[0]]
                     if rows and (rows[0][0],) in bc.blocks:
+                        if np.linalg.cond(np.asarray(mw.blocks[rows[0]], dtype='complex128')) > 1e6:
+                            continue      # the shifted random block happens to be (nearly) singular: its "solution" carries no information
                         res = np.asarray(mw.blocks[rows[0]]) @ np.asarray(blk) - np.asarray(bc.blocks[(rows[0][0],)])
                         if np.max(np.abs(res)) > (1e-3 if dt == 'float32' else 1e-9) * (1 + np.max(np.abs(np.asarray(bc.blocks[(rows[0][0],)])))):
                             extra = 'a @ x differs from the complex right-hand side by %g in sector %r' % (float(np.max(np.abs(res))), kk)
